@@ -269,6 +269,10 @@ def run_harness(root, crate, harness, target_dir, timeout_s, mem_mb, log_path,
         return res
     saw = parse_output(text, res)
     if not saw:
+        if "run out of memory" in text:
+            res.reason = "CBMC ran out of memory"
+            res.status = "inconclusive"
+            return res
         if re.search(r"error(\[E\d+\])?:", text) or "could not compile" in text:
             res.reason = "harness does not compile against current /repo (or kani error); see log"
         elif "no harnesses matched" in text or "No proof harnesses" in text:
@@ -293,3 +297,110 @@ def run_harness(root, crate, harness, target_dir, timeout_s, mem_mb, log_path,
         return res
     res.status = "ok"
     return res
+
+
+SEG_RE = re.compile(r"^Checking harness (?P<h>\S+?)\.\.\.\s*$", re.M)
+
+
+def run_lane(root, crate, jobs, target_dir, log_path, mem_mb, playback=False):
+    """Run several harnesses (same crate) in one `cargo kani` invocation, sequentially.
+    jobs: objects with .full, .name, .timeout, .cbmc, .nocover.  Returns {full_name: HarnessResult}."""
+    per_timeout = max(j.timeout for j in jobs)
+    cmd = ["cargo", "kani", "-p", crate, "--target-dir", target_dir, "--exact"]
+    for j in jobs:
+        cmd += ["--harness", j.full]
+    cmd += list(KANI_BASE_ARGS)
+    cmd += ["--harness-timeout", "%ds" % per_timeout]
+    if playback:
+        cmd += ["-Z", "concrete-playback", "--concrete-playback=print"]
+    extra = []
+    for j in jobs:
+        for a in (j.cbmc or []):
+            if a not in extra:
+                extra.append(a)
+    cmd += ["--cbmc-args"] + CBMC_ARGS + extra
+    env = dict(os.environ)
+    env["CARGO_NET_OFFLINE"] = "true"
+    env.pop("RUSTUP_TOOLCHAIN", None)
+    total_timeout = 300 + sum(j.timeout for j in jobs)
+    t0 = time.time()
+    killed = {"why": None}
+    peak = {"kb": 0}
+    with open(log_path, "w") as logf:
+        logf.write("$ " + " ".join(cmd) + "\n")
+        logf.flush()
+        p = subprocess.Popen(cmd, cwd=root, stdout=logf, stderr=subprocess.STDOUT, env=env, start_new_session=True)
+
+        def monitor():
+            while p.poll() is None:
+                time.sleep(1.0)
+                kb = _group_rss_kb(p.pid)
+                peak["kb"] = max(peak["kb"], kb)
+                if kb > mem_mb * 1024:
+                    killed["why"] = "memory cap %d MB exceeded" % mem_mb
+                elif time.time() - t0 > total_timeout:
+                    killed["why"] = "lane timeout %ds" % total_timeout
+                if killed["why"]:
+                    try:
+                        os.killpg(p.pid, signal.SIGKILL)
+                    except OSError:
+                        pass
+                    return
+
+        th = threading.Thread(target=monitor, daemon=True)
+        th.start()
+        p.wait()
+        th.join(timeout=3)
+    wall = time.time() - t0
+    text = open(log_path, errors="replace").read()
+    segs = {}
+    ms = list(SEG_RE.finditer(text))
+    for i, m in enumerate(ms):
+        end = ms[i + 1].start() if i + 1 < len(ms) else len(text)
+        segs[m.group("h")] = text[m.start():end]
+    preamble = text[:ms[0].start()] if ms else text
+    compile_failed = (not ms) and (re.search(r"^error(\[E\d+\])?:", text, re.M) or "could not compile" in text)
+    out = {}
+    for j in jobs:
+        res = HarnessResult(j.name)
+        res.log_path = log_path
+        res.peak_rss_mb = peak["kb"] // 1024
+        seg = segs.get(j.full)
+        if seg is None:
+            res.status = "inconclusive"
+            if compile_failed:
+                res.reason = "harness does not compile against current /repo (or kani error); see log"
+            elif killed["why"]:
+                res.reason = "not run: lane killed (%s)" % killed["why"]
+            else:
+                res.reason = "harness not run / not found (see log)"
+            out[j.full] = res
+            continue
+        res.raw = seg if playback else ""
+        saw = parse_output(seg, res)
+        mt = re.search(r"Verification Time: ([0-9.]+)s", seg)
+        res.wall_s = float(mt.group(1)) if mt else 0.0
+        if not saw:
+            res.status = "inconclusive"
+            if "run out of memory" in seg:
+                res.reason = "CBMC ran out of memory"
+            elif "timed out" in seg.lower() or "timeout" in seg.lower():
+                res.reason = "harness timeout %ds" % per_timeout
+            elif killed["why"]:
+                res.reason = killed["why"]
+            else:
+                res.reason = "no CBMC results for this harness (see log)"
+        elif res.inconclusive_checks:
+            c = res.inconclusive_checks[0]
+            res.status = "inconclusive"
+            res.reason = "%s: %s (%s)" % (c.cls, c.desc[:120], c.fn)
+        elif res.failed:
+            res.status = "violation"
+            res.reason = "%d failing check(s)" % len(res.failed)
+        elif (not j.nocover) and res.covers_unsat:
+            res.status = "inconclusive"
+            res.reason = "vacuity: cover not satisfied: %s" % "; ".join(res.covers_unsat[:3])
+        else:
+            res.status = "ok"
+        out[j.full] = res
+    return out, wall
